@@ -847,7 +847,13 @@ class Frame:
                 cur = base
                 for ix in idx.items[:-1]:
                     cur = cur.items[self.index(ix, len(cur), target)]
-                cur.items[self.index(idx.items[-1], len(cur), target)] = v
+                last = idx.items[-1]
+                if isinstance(last, SliceV):
+                    if last.full and isinstance(v, ListV) and len(v) == len(cur):
+                        cur.items[:] = list(v.items)
+                        return
+                    raise _RaisedExc(Raised('ValueError', target))      # shape mismatch in row assignment
+                cur.items[self.index(last, len(cur), target)] = v
                 return
             if isinstance(base, ListV):
                 i = self.index(idx, len(base), target)
@@ -1002,6 +1008,8 @@ class Frame:
             return '<fstring>'
         if isinstance(n, ast.Lambda):
             return FuncRef(self.module, n, None, self.owner)
+        if isinstance(n, ast.Slice):
+            return SliceV(n.lower is None and n.upper is None and n.step is None)
         if isinstance(n, ast.Yield):
             if getattr(self, 'yields', None) is None:
                 raise Unsupported('yield outside a generator frame', n, self.module.relpath)
@@ -1662,6 +1670,11 @@ def builtin_call(I, fr, name, args, kwargs, n):
     raise Unsupported('builtin %s' % name, n)
 
 
+class SliceV:
+    def __init__(self, full):
+        self.full = full
+
+
 class TypeOf:
     def __init__(self, v):
         self.v = v
@@ -1677,6 +1690,9 @@ def bound_native(I, fr, bn, args, kwargs, n):
             else:
                 b.items.append(v)
             return None
+        if name == 'transpose' and getattr(b, 'is_array', False):
+            axes = args[0] if len(args) == 1 and isinstance(args[0], ListV) else ListV(list(args))
+            return nd_transpose(b, [_as_int(a, n) for a in axes.items])
         if name == 'copy':
             r = ListV(list(b.items))
             r.is_array = getattr(b, 'is_array', False)
@@ -1882,16 +1898,17 @@ def _np_like(val):
 def _np_zeros(val):
     def h(I, fr, args, kwargs, n):
         shape = _arg(args, kwargs, 0, 'shape')
-        if isinstance(shape, ListV) and len(shape) == 2:
-            r_, c_ = _as_int(shape.items[0], n), _as_int(shape.items[1], n)
-            rows = []
-            for _ in range(r_):
-                row = ListV([C(val)] * c_)
-                row.is_array = True
-                rows.append(row)
-            m_ = ListV(rows)
-            m_.is_array = True
-            return m_
+        if isinstance(shape, ListV) and len(shape) >= 2:
+            dims = [_as_int(x, n) for x in shape.items]
+
+            def build(ds):
+                if len(ds) == 1:
+                    r_ = ListV([C(val)] * ds[0])
+                else:
+                    r_ = ListV([build(ds[1:]) for _ in range(ds[0])])
+                r_.is_array = True
+                return r_
+            return build(dims)
         if isinstance(shape, Rat) and shape.is_const():
             r = ListV([C(val)] * _as_int(shape, n))
             r.is_array = True
@@ -2119,6 +2136,82 @@ def _consecutive_groups(I, fr, args, kwargs, n):
     return ListV([ListV(g) for g in groups])
 
 
+class ArgV:
+    """index of the extremum of a list of scalars that cannot be ordered: remembers the candidates"""
+
+    def __init__(self, which, cands):
+        self.which = which
+        self.cands = list(cands)
+
+    def __repr__(self):
+        return 'ArgV(%s of %r)' % (self.which, self.cands)
+
+
+def _arg_extremum(which):
+    def h(I, fr, args, kwargs, n):
+        v = _arg(args, kwargs, 0, 'a')
+        axis = kwargs.get('axis', args[1] if len(args) > 1 else None)
+        if not isinstance(v, ListV) or not v.items:
+            raise Unsupported('arg-reduction operand', n)
+
+        def one(items):
+            try:
+                best = 0
+                for i in range(1, len(items)):
+                    if I.compare('<' if which == 'min' else '>', items[i], items[best], n):
+                        best = i
+                return C(best)
+            except Unsupported:
+                return ArgV(which, items)
+        if axis is None:
+            if any(isinstance(x, ListV) for x in v.items):
+                raise Unsupported('arg-reduction of a matrix without axis', n)
+            return one(v.items)
+        ax = _as_int(axis, n)
+        if not all(isinstance(x, ListV) for x in v.items):
+            raise Unsupported('axis given for a vector', n)
+        if ax == 1:
+            r = ListV([one(row.items) for row in v.items])
+        elif ax == 0:
+            r = ListV([one(list(col)) for col in zip(*[row.items for row in v.items])])
+        else:
+            raise Unsupported('axis %d' % ax, n)
+        r.is_array = True
+        return r
+    return h
+
+
+def nd_transpose(v, axes):
+    """transpose of a nested ListV array"""
+    def shape(x):
+        sh = []
+        while isinstance(x, ListV):
+            sh.append(len(x))
+            x = x.items[0] if x.items else None
+        return sh
+
+    def get(x, idx):
+        for i in idx:
+            x = x.items[i]
+        return x
+    sh = shape(v)
+    if len(axes) != len(sh):
+        raise Unsupported('transpose axes')
+    new_sh = [sh[a] for a in axes]
+
+    def build(prefix):
+        d_ = len(prefix)
+        if d_ == len(new_sh):
+            old = [0] * len(sh)
+            for k, a in enumerate(axes):
+                old[a] = prefix[k]
+            return get(v, old)
+        r = ListV([build(prefix + [i]) for i in range(new_sh[d_])])
+        r.is_array = True
+        return r
+    return build([])
+
+
 def _np_isclose(I, fr, args, kwargs, n):
     a, b = args[0], args[1]
     if isinstance(a, Rat) and isinstance(b, Rat):
@@ -2193,6 +2286,13 @@ def _np_argmax(I, fr, args, kwargs, n):
                 return C(i)
         return C(0)
     raise Unsupported('np.argmax operand', n)
+
+
+def _np_argmax_any(I, fr, args, kwargs, n):
+    v = _arg(args, kwargs, 0, 'a')
+    if isinstance(v, ListV) and all(isinstance(x, bool) for x in v.items):
+        return _np_argmax(I, fr, args, kwargs, n)
+    return _arg_extremum('max')(I, fr, args, kwargs, n)
 
 
 def _identity(I, fr, args, kwargs, n):
@@ -2447,10 +2547,13 @@ NATIVE = {
     'numpy.sum': _np_sum,
     'numpy.prod': _np_prod,
     'numpy.append': _np_append,
-    'numpy.argmax': _np_argmax,
+    'numpy.argmax': _np_argmax_any,
     'numpy.roots': _np_roots,
     'numpy.mean': _np_mean,
     'numpy.isclose': _np_isclose,
+    'numpy.argmin': _arg_extremum('min'),
+    'numpy.nanargmin': _arg_extremum('min'),
+    'numpy.nanargmax': _arg_extremum('max'),
     'more_itertools.consecutive_groups': _consecutive_groups,
     're.search': _re_search,
     're.findall': _re_findall,
@@ -2495,7 +2598,7 @@ class RankOrder:
     assumed assignment of ranks; anything else stays undecided."""
 
     def __init__(self, ranks, const_ranks=False):
-        self.ranks = dict(ranks)
+        self.ranks = ranks if isinstance(ranks, dict) else dict(ranks)     # shared: callers may add ranks later
         self.const_ranks = const_ranks
 
     def rank(self, r):
